@@ -359,6 +359,9 @@ C08Chain == (pc = "done" /\ pc' = "new" /\ stage' = stage + 1) =>
                /\ val' = val
                /\ \A i \in H(cfg) : cfg'.hi[i] <= cfg.hi[i] + Tol /\ cfg'.lo[i] >= cfg.lo[i] - Tol
 C08 == [][C08Chain]_vars
+\* the state that is held always has a defined, finite score: no proposal without one is accepted
+C08AcceptStep == (pc = "decide" /\ pc' # "decide" /\ rej' = rej) => Defined(new)
+C08Held == [][C08AcceptStep]_vars
 
 (* C18: constant inside a loop, one admissible cooling step between loops, *)
 (* zero stays zero, the last loop is governed by the requested finish.      *)
